@@ -33,6 +33,8 @@ import (
 const shimBase = "github.com/whoisnian/glb/zzverif/"
 
 type pkgConf struct {
+	abs   string // absolute directory (extra packages outside the tree); empty: repo/dir
+	path  string // import path (extra packages); empty: github.com/whoisnian/glb/<dir>
 	dir   string // relative to repo
 	chans bool   // rewrite channels, select, go, timers
 	ctx   bool   // context -> vctx
@@ -56,6 +58,7 @@ var (
 	only      = flag.String("pkgs", "", "comma-separated subset of package dirs (default all)")
 	consts    = flag.String("const", "", "constant overrides pkgdir:name=value,...")
 	noFields  = flag.Bool("nofields", false, "do not insert field access monitors")
+	extra     = flag.String("extra", "", "extra package to instrument with all rewrites: <abs dir>=<import path>")
 	dump      = flag.Bool("dump", false, "print instrumented sources to stdout")
 )
 
@@ -120,8 +123,17 @@ func main() {
 	for _, t := range targets {
 		targetPkgs["github.com/whoisnian/glb/"+t.dir] = true
 	}
+	if *extra != "" {
+		d, p, ok := strings.Cut(*extra, "=")
+		if !ok {
+			fatal("bad -extra")
+		}
+		d, _ = filepath.Abs(d)
+		targets = append(targets, pkgConf{abs: d, path: p, dir: "extra", chans: true, ctx: true})
+		targetPkgs[p] = true
+	}
 	for _, t := range targets {
-		if len(want) > 0 && !want[t.dir] {
+		if len(want) > 0 && !want[t.dir] && t.abs == "" {
 			continue
 		}
 		if err := instrumentPkg(t, constOv[t.dir], targetPkgs, overlay); err != nil {
@@ -171,6 +183,9 @@ type rewriter struct {
 
 func instrumentPkg(conf pkgConf, consts map[string]string, targets map[string]bool, overlay map[string]string) error {
 	dir := filepath.Join(*repo, conf.dir)
+	if conf.abs != "" {
+		dir = conf.abs
+	}
 	fset := token.NewFileSet()
 	bctx := build.Default
 	ents, err := os.ReadDir(dir)
@@ -201,7 +216,11 @@ func instrumentPkg(conf pkgConf, consts map[string]string, targets map[string]bo
 		Selections: map[*ast.SelectorExpr]*types.Selection{},
 	}
 	tc := types.Config{Importer: importer.ForCompiler(fset, "source", nil), Error: func(error) {}}
-	pkg, err := tc.Check("github.com/whoisnian/glb/"+conf.dir, fset, files, info)
+	ipath := "github.com/whoisnian/glb/" + conf.dir
+	if conf.path != "" {
+		ipath = conf.path
+	}
+	pkg, err := tc.Check(ipath, fset, files, info)
 	if err != nil {
 		return fmt.Errorf("type check: %v", err)
 	}
